@@ -182,11 +182,11 @@ func buildTable() *Node {
 			leaf("lo", "uint32"), leaf("hi", "uint32"), leaf("ilo", "int32"), leaf("ihi", "int32"),
 			leaf("mode", "string"), leaf("modedep", "string"),
 			leaf("defmode", "string", def("on")), leaf("defdep", "string"),
-			list("svc", "name", leaf("name", "string"), leaf("kind", "string"), leaf("note", "string"), leaf("weight", "uint8", def("5"))),
+			list("svc", "name", leaf("name", "string"), leaf("kind", "string"), leaf("note", "string"), leaf("weight", "uint8", def("5")), leaf("dd", "string")),
 			cont("mc", presence(), leaf("musthave", "string"), leaf("opt", "string")),
 			list("ref", "name", leaf("name", "string"),
 				leaf("target", "leafref", lrefTo("string")), leaf("soft", "leafref", lrefTo("string")),
-				leaf("needkind", "string")),
+				leaf("needkind", "string"), leaf("svcname", "string"), leaf("viasvc", "leafref", lrefTo("string")), leaf("chk", "string"), leaf("wref", "string")),
 			list("grp", "name", leaf("name", "string"), leaflist("members", "string"), leaflist("maxonly", "string")),
 		),
 		cont("types",
